@@ -12,30 +12,45 @@ import wannierberri.symmetry.unique_list as UL
 
 PROPERTY = "C21"
 FUNCTIONS = ["wannierberri.symmetry.orbitals.Orbitals.__init__ (hybrid matrices)", "Orbitals.rot_orb_basis", "Orbitals.rot_orb",
-             "OrbitalRotator.__call__ (cache, irot, ';'-joined shells, local bases)"]
+             "OrbitalRotator.__call__ (cache, irot, ';'-joined shells, local bases)",
+             "wannierberri.symmetry.Dwann.Dwann.__init__ / get_on_points / orbit_from_positions (thorough tier)"]
 BOUNDS = dict(
     quick=dict(shells="s p d sp3 over all of O(3) (f: one symbolic proper rotation and its negative: orthogonality, parity, defining relation); sp p2 pxy sp2 pz over the stabiliser of their span (axis rotations x reflections); "
                       "t2g eg sp3d2 over O_h (48 signed permutation matrices)",
                rotation="R = sigma*M(q), q a symbolic unit quaternion (4 reals on the 3-sphere), sigma=+-1; axis families: symbolic angle (unit-circle atoms)",
                composition="one symbolic factor times concrete signed permutation matrices, both orders (all 48 for s p sp3; the 3 generators of O_h "
                            "+ 5 more for d); two symbolic factors for s, p, sp3, d (d: first factor proper) and all axis families; all 48x(3 generators) pairs for the O_h-only hybrids"),
-    thorough=dict(shells="as quick plus the f shell", rotation="as quick",
-                  composition="as quick, all 48 concrete factors also for d (8 for f), two symbolic factors for d and f with all four sign combinations"))
+    thorough=dict(shells="as quick plus the f shell everywhere (both signs)", rotation="as quick",
+                  composition="as quick, all 48 concrete factors also for d (8 for f), two symbolic factors for d and f with all four sign combinations; "
+                              "three independent symbolic rotations through the local-basis path of OrbitalRotator (basis2.R.basis1^T) for s p sp3 d, R proper and improper",
+                  joined="';'-joined projections 's;p;d', 'sp3;d', 'p;f' for symbolic R of both signs: block structure, orthogonality, parity",
+                  dwann="Dwann.__init__/get_on_points on 8 model space groups (O_h, D4h, C4v, D2h on the cubic lattice; the non-symmorphic P4_2 and a double-glide group; "
+                        "D6h and D3h on a hexagonal lattice, c/a=1.6), 2-4 Wyckoff-type sites each (orbits of 1..48 sites), s p d f sp3 'p;d' 's;p' 's;p;d' and every hybrid "
+                        "in the groups that keep its span invariant, local bases 'same for all sites' / 'rotated with the site' (140 combinations), symbolic k-point: "
+                        "unitarity, every centre mapped onto its image site, D_g1(g2 k) D_g2(k) = D_g1g2(k) for g2 in the generators and every g1 (symmorphic groups); "
+                        "exact on the cubic lattice, to 1e-12 on the hexagonal one (cartesian rotations are doubles there)"))
 EXPLANATION = ("The real rot_orb_basis/rot_orb/OrbitalRotator run with the rotation given as sigma*M(q) for a symbolic unit quaternion q (or a symbolic "
                "axis angle); np.linalg.inv is the exact adjugate inverse whose nine entries travel through the function's own sympy algebra as symbols, "
                "sympy.sqrt(3.0) etc. and the doubles 1/sqrt(k) of hybrids_coef are algebraic atoms (w_p^2=p, w_p>0), and every value stored into the "
                "result array is converted exactly (sympy Floats as binary rationals) into a polynomial in q.  A.A^T=1, A(1)=1 and the composition law "
                "are polynomial identities modulo |q|^2=1 decided by normal form + z3; so are the parity law A(-R) = (-1)^l A(R) and, for the complete shells, "
-               "the defining relation phi_j(R^-1 r) = sum_i phi_i(r) A_ij at a symbolic point r with the package's own orbital polynomials.")
+               "the defining relation phi_j(R^-1 r) = sum_i phi_i(r) A_ij at a symbolic point r with the package's own orbital polynomials.  Thorough tier: the real Dwann "
+               "runs on model space groups (real irrep operations) with a symbolic k-point; unitarity, centre mapping and the group law of the assembled matrices are "
+               "identities in the unit-circle atoms exp(2 pi i k_a).")
 ASSUMPTIONS = ["hybrid sets whose span is a proper subspace of the shells involved (sp p2 pxy sp2 pz t2g eg sp3d2) are rotated only by elements of the "
                "stabiliser of that span (site-symmetry operations in local bases - the only way Dwann/Projection call them); outside it rot_orb returns "
                "a projection that cannot be orthogonal",
                "hybrid coefficients of hybrids_coef are the doubles closest to n/sqrt(k); they are taken as the algebraic numbers they round"]
-OUTSIDE = ["second sentence of the property: unitarity / centre mapping of Dwann for arbitrary space groups (irrep objects; not applicable here)",
+OUTSIDE = ["second sentence of the property (Dwann): quick tier not at all; thorough tier on the model space groups listed in BOUNDS only - arbitrary space groups "
+           "built by irrep from a structure, spinor and time-reversal operations, symbolic site coordinates and the composition law of non-symmorphic groups "
+           "(lattice-translation phases) are outside; the sign convention of the Bloch phase is not pinned by the property (a conjugated phase passes)",
+           "three symbolic rotations for the f shell (cubic in 243-term entries); more than three factors",
            "quick tier: the f shell, and improper first factors in the two-symbolic-factor law for d (both in the thorough tier)",
            "OrbitalRotator identifies rotations closer than its tolerance 1e-4 (UniqueList); cache lookups are exercised with well separated rotations only",
            "rounding of the double arithmetic (real-number semantics of the code)"]
-STUBS = ["np.linalg.det on the symbolic rotation: exact determinant (normalises to the constant sigma = +-1)",
+STUBS = ["Dwann (thorough): space group = plain container of real irrep SymmetryOperation objects generated by closure from integer generators; np.exp in Dwann.py "
+         "on 2 pi i (n.k) with symbolic k = product of powers of one unit-circle atom pair per component of k",
+         "np.linalg.det on the symbolic rotation: exact determinant (normalises to the constant sigma = +-1)",
          "np.linalg.inv on the symbolic rotation: exact adjugate/determinant (no assumption); its entries are handed to the function's sympy algebra as "
          "fresh symbols and substituted back exactly when the function stores a matrix element",
          "sympy.sqrt(k.0) -> product of algebraic atoms w_p (p prime, w_p^2=p, w_p>0) instead of a 53-bit Float",
@@ -458,6 +473,222 @@ def case_rotator(rec, sigma):
     rec.explore(body)
 
 
+# ------------------------------------------------------------------------------------------------------------
+# thorough tier: Dwann assembly (second sentence of the property) on model space groups, symbolic local bases, joined shells
+C4Z, C3D, INV, MX = GENERATORS[0].astype(int), GENERATORS[1].astype(int), GENERATORS[2].astype(int), np.diag([-1, 1, 1])
+GROUPS = dict(Oh=([C4Z, C3D, INV], None), D4h=([C4Z, MX, INV], None), C4v=([C4Z, MX], None), D2h=([np.diag([-1, -1, 1]), MX, INV], None),
+              P42=([C4Z], {0: (0, 0, 0.5)}), Pnn=([MX, np.diag([1, -1, 1])], {0: (0, 0.5, 0.5), 1: (0.5, 0, 0.5)}),
+              D6h=([np.array([[1, -1, 0], [1, 0, 0], [0, 0, 1]]), np.array([[1, -1, 0], [0, -1, 0], [0, 0, -1]]), INV], None),      # hexagonal axes
+              D3h=([np.array([[0, -1, 0], [1, -1, 0], [0, 0, 1]]), np.array([[1, -1, 0], [0, -1, 0], [0, 0, -1]]), np.diag([1, 1, -1])], None))
+HEXLAT = np.array([[1, 0, 0], [-0.5, np.sqrt(3) / 2, 0], [0, 0, 1.6]])
+LATTICE = dict(D6h=HEXLAT, D3h=HEXLAT)        # every other model group lives on the cubic lattice
+
+
+def model_group(name):
+    """(integer rotations, translations, generator indices): closure of the generators, cubic lattice (cartesian = reduced coordinates); the
+    non-symmorphic ones carry the fractional translations of their generators"""
+    gens, tr = GROUPS[name]
+    ops = [(np.eye(3, dtype=int), np.zeros(3))]
+    gen_ops = [(g, np.array(tr[i], dtype=float) if tr else np.zeros(3)) for i, g in enumerate(gens)]
+    grew = True
+    while grew:
+        grew = False
+        for a, ta in list(ops):
+            for g, tg in gen_ops:
+                m, t = a @ g, (a @ tg + ta) % 1
+                if not any(np.array_equal(m, x) for x, _ in ops):
+                    ops.append((m, t))
+                    grew = True
+    return ops, [next(i for i, (x, _) in enumerate(ops) if np.array_equal(x, g)) for g, _ in gen_ops], tr is None
+
+
+class _SG:
+    pass
+
+
+def space_group(name):
+    from irrep.symmetry_operation import SymmetryOperation
+    ops, gens, symmorphic = model_group(name)
+    sg = _SG()
+    sg.symmetries = [SymmetryOperation(m.astype(float), t, LATTICE.get(name, np.eye(3)), ind=i, spinor=False) for i, (m, t) in enumerate(ops)]
+    sg.size = len(ops)
+    return sg, ops, gens, symmorphic
+
+
+def site_bases(sg, orbit, mode, axis_safe=False):
+    """local bases of the sites: 'same' = one basis for all, 'rotated' = basis0 @ rot.T with the operation that brings site 0 there (as Projection does)"""
+    B0 = OH[7] if not axis_safe else np.eye(3)
+    if mode == "same":
+        return [B0] * len(orbit)
+    out = []
+    for pnt in orbit:
+        s = next(s for s in sg.symmetries if np.allclose((s.transform_r(np.array(orbit[0])) - pnt + 0.5) % 1 - 0.5, 0, atol=1e-6))
+        out.append(B0 @ s.rotation_cart.T)
+    return out
+
+
+class NpK(Np):
+    """np of Dwann.py: exp(2 pi i (n.k)) with symbolic k = prod_a z_a^n_a, z_a = exp(2 pi i k_a) one unit-circle atom pair per component"""
+    zk = None
+
+    def exp(s, x):
+        if not isinstance(x, SymC) or x.isconst():
+            return Np.exp(s, x)
+        two_pi = Fr(2 * np.pi)
+        r = SymC.of(1)
+        for m, c in x.n.t.items():
+            if c[0] != 0 or not x.d.is_one():
+                raise Inconclusive("exp of a symbolic argument with a real part")
+            if m == ():
+                r = r * SymC.of(np.exp(1j * float(c[1])))
+                continue
+            (nm, e), = m
+            n = c[1] / two_pi
+            if e != 1 or n.denominator != 1 or nm not in NpK.zk:
+                raise Inconclusive(f"exp of {m} x {c}")
+            z = NpK.zk[nm] if n > 0 else NpK.zk[nm].conjugate()
+            r = r * z ** abs(int(n))
+        return r
+
+
+def smatmul(A, B):
+    """exact matrix product of object arrays that skips exactly-zero entries (the Dwann matrices are block-sparse)"""
+    A, B = np.asarray(A, dtype=object), np.asarray(B, dtype=object)
+    rows = [[(j, SymC.of(B[k, j])) for j in range(B.shape[1]) if not SymC.of(B[k, j]).iszero()] for k in range(B.shape[0])]
+    out = lift(np.zeros((A.shape[0], B.shape[1])))
+    for i in range(A.shape[0]):
+        for k in range(A.shape[1]):
+            a = SymC.of(A[i, k])
+            if a.iszero():
+                continue
+            for j, b in rows[k]:
+                out[i, j] = out[i, j] + a * b
+    return out
+
+
+def rationalise(A):
+    """entries whose denominator is a monomial in the algebraic atoms w_p: multiply through (w_p^2 = p) so that the denominator is a constant"""
+    A = np.asarray(A, dtype=object)
+    out = np.empty(A.shape, dtype=object)
+    for i in np.ndindex(*A.shape):
+        x = SymC.of(A[i])
+        if not x.d.is_one():
+            dp = x.d.expand() if hasattr(x.d, "expand") else x.d      # w_p^2 -> p happens in the expanded product
+            if not dp.isconst():
+                (m, c), = dp.t.items()      # a single monomial, by construction of the rotation matrices
+                mono = Poly({m: (F1, F0)})
+                x = SymC(x.n * mono, dp * mono)
+            else:
+                x = SymC(x.n, dp)
+        out[i] = x
+    return out.view(SymArray)
+
+
+def case_dwann(rec, group, position, orbital, bases):
+    import wannierberri.symmetry.Dwann as DW
+    install()
+    shadow([DW], proxy=NpK(linalg=Lin(np.linalg)))
+    sg, ops, gens, symmorphic = space_group(group)
+    k = [SymC.var(n) for n in ("kx", "ky", "kz")]
+    NpK.zk = {n: (SymC.of(1j) * SymC.var("two_pi_" + n)).exp() for n in ("kx", "ky", "kz")}
+    kvec = sarr(k)
+
+    exact = group not in LATTICE     # hexagonal axes: the cartesian rotations are doubles (cos 60, sin 60), identities hold to rounding: 1e-12 claimed
+    same = (lambda name, a, b, key: rec.eq(name, a, b, key=key)) if exact else (lambda name, a, b, key: rec.close(name + " (1e-12)", rationalise(a), rationalise(b), 1e-12, bound=2.0, key=key))
+
+    def body(rec):
+        rec.witness = lambda env: dict(test="dwann", group=group, position=list(position), orbital=orbital, bases=bases,
+                                       zk=[env.val(NpK.zk[n]) for n in ("kx", "ky", "kz")])
+        orbit = DW.orbit_from_positions(sg, [np.array(position)])
+        dw = DW.Dwann(sg, [np.array(position)], orbital=orbital, orbitalrotator=O.OrbitalRotator(), basis_list=site_bases(sg, orbit, bases, any(o in AXIS for o in orbital.split(";"))))
+        norb, npnt = O.num_orbitals(orbital), len(dw.orbit)
+        D = [np.asarray(dw.get_on_points(kvec, s.transform_k(kvec), i), dtype=object).view(SymArray) for i, s in enumerate(sg.symmetries)]
+        for i, (m, t) in enumerate(ops):
+            same(f"D(g{i}) unitary", smatmul(np.conjugate(D[i].T), D[i]), eye(npnt * norb), "Dwann matrix not unitary")
+            ok = D[i].shape == (npnt * norb, npnt * norb)
+            for ip, pnt in enumerate(dw.orbit):       # the harness's own image of the centre
+                img = m @ np.array(pnt) + t
+                jp = [j for j, q in enumerate(dw.orbit) if np.allclose((img - q + 0.5) % 1 - 0.5, 0, atol=1e-6)]
+                col = D[i][:, ip * norb:(ip + 1) * norb]
+                nz = sorted(set(r // norb for r in range(npnt * norb) if any(not SymC.of(x).iszero() for x in col[r])))
+                ok = ok and len(jp) == 1 and nz == jp
+            rec.concrete(f"D(g{i}) maps every centre onto its image (one non-zero block per column block, at the image site)", ok,
+                         key="Dwann does not map a centre onto its symmetry image")
+        if symmorphic:
+            for g in gens:
+                Dg_at = {}
+                for i, (m, t) in enumerate(ops):
+                    i3 = next(j for j, (x, _) in enumerate(ops) if np.array_equal(x, m @ ops[g][0]))
+                    k2 = sg.symmetries[g].transform_k(kvec)
+                    Di_k2 = np.asarray(dw.get_on_points(k2, sg.symmetries[i].transform_k(k2), i), dtype=object).view(SymArray)
+                    same(f"D(g{i})(g{g}.k) . D(g{g})(k) = D(g{i}.g{g})(k)", smatmul(Di_k2, D[g]), D[i3], "Dwann composition law")
+    rec.explore(body)
+
+
+def case_three(rec, shell, s0):
+    """OrbitalRotator with symbolic local bases: A(basis2 . R . basis1^T) = A(basis2) A(R) A(basis1)^T, three independent symbolic rotations"""
+    install()
+    M, q = quaternion("q")
+    M1, q1 = quaternion("r")
+    M2, q2 = quaternion("t")
+    R = M * s0
+
+    def body(rec):
+        rec.witness = lambda env: dict(test="three", shell=shell, s0=s0, q=[env.val(x) for x in q], q1=[env.val(x) for x in q1], q2=[env.val(x) for x in q2])
+        AL = O.OrbitalRotator()(shell, rot_cart=as_sympy(R), basis1=as_sympy(M1), basis2=as_sympy(M2))
+        n = O.num_orbitals(shell)
+        # (orthogonality of AL follows: it equals a product of matrices whose orthogonality is established for every rotation by the 'full' cases)
+        rec.eq("local bases: A(B2) A(R) A(B1)^T", AL, rotate(shell, M2) @ rotate(shell, R) @ rotate(shell, M1).T, key=f"OrbitalRotator local bases ({shell})")
+    rec.explore(body)
+
+
+def case_joined(rec, symbol, sigma):
+    """';'-joined projections: block diagonal of the parts, orthogonal, parity"""
+    install()
+    M, q = quaternion()
+    R = M * sigma
+    parts = symbol.split(";")
+
+    def body(rec):
+        rec.witness = lambda env: dict(test="joined", symbol=symbol, sigma=sigma, q=[env.val(x) for x in q])
+        A = rotate(symbol, R)
+        n = O.num_orbitals(symbol)
+        want, P = lift(np.zeros((n, n))), lift(np.zeros((n, n)))
+        st = 0
+        for sh in parts:
+            m = O.num_orbitals(sh)
+            want[st:st + m, st:st + m] = rotate(sh, R)
+            P[st:st + m, st:st + m] = parity(sh)
+            st += m
+        rec.eq(f"'{symbol}' = blockdiag of the parts", A, want, key="OrbitalRotator ';'-joined shells / irot")
+        rec.eq(f"'{symbol}' orthogonal", A @ A.T, eye(n), key=f"rot_orb({symbol}) not orthogonal")
+        rec.eq(f"'{symbol}' parity", rotate(symbol, -R), P @ A, key=f"rot_orb({symbol}) parity under inversion")
+    rec.explore(body)
+
+
+def dwann_cases():
+    """(group, site, projection, local bases): complete shells everywhere, every hybrid in the groups that keep its span invariant"""
+    out = []
+    axis_h, oh_h = ["sp", "p2", "pxy", "sp2", "pz"], ["sp3d2", "t2g", "eg"]
+    plan = dict(Oh=([(0.5, 0, 0), (0.3, 0, 0), (0.2, 0.2, 0.2), (0.5, 0.5, 0)], ["s", "p", "d", "f", "sp3", "p;d"] + oh_h),
+                D4h=([(0.5, 0, 0), (0.3, 0.1, 0.2)], ["p", "d", "f", "sp3", "s;p"] + axis_h[2:]),
+                C4v=([(0.5, 0, 0.1), (0.3, 0.1, 0.4)], ["p", "d", "sp3"] + axis_h[2:]),
+                D2h=([(0.5, 0.2, 0), (0.3, 0.1, 0.2)], ["p", "d", "f", "sp", "p2", "sp2"]),
+                P42=([(0.5, 0, 0.1), (0.3, 0.1, 0.2)], ["p", "d", "f", "sp3", "sp2", "pz"]),
+                Pnn=([(0.25, 0.25, 0.1), (0.3, 0.1, 0.2)], ["p", "d", "f", "sp3", "sp2", "pz"]),
+                D6h=([(1 / 3, 2 / 3, 0), (0.5, 0, 0), (0.3, 0.1, 0.2)], ["s", "p", "d", "f", "sp3", "sp2", "pz", "pxy"]),
+                D3h=([(1 / 3, 2 / 3, 0), (0.3, 0.1, 0.2)], ["p", "d", "f", "sp2", "pz"]))
+    n = 0
+    for group, (sites, orbs) in plan.items():
+        for site in sites:
+            for orb in orbs:
+                n += 1
+                out.append((group, site, orb, ("same", "rotated")[n % 2]))
+    out += [("Oh", (0.5, 0.2, 0), "d", "rotated"), ("Oh", (0.5, 0.2, 0), "s", "same"), ("Oh", (0.3, 0.1, 0.2), "p", "rotated"), ("Oh", (0.3, 0.1, 0.2), "d", "same"),
+            ("Oh", (0.3, 0.3, 0.1), "sp3", "rotated"), ("Oh", (0.2, 0.2, 0.2), "s;p;d", "rotated")]
+    return out
+
+
 def cases(tier, seed):
     q = tier == "quick"
     out = []
@@ -486,6 +717,20 @@ def cases(tier, seed):
         out.append(Case(f"axis {shell}", case_axis, dict(shell=shell)))
     for shell in OHONLY:
         out.append(Case(f"O_h {shell}", case_oh, dict(shell=shell)))
+    if q:
+        return out
+    # ---- thorough only ----------------------------------------------------------------------------------------
+    T = 5400
+    for c in out:
+        c.timeout = T
+    for group, pos, orb, bases in dwann_cases():
+        out.append(Case(f"Dwann {group} site {pos} '{orb}' bases={bases}", case_dwann, dict(group=group, position=pos, orbital=orb, bases=bases), timeout=T))
+    for shell in ("s", "p", "sp3", "d"):
+        for s0 in (1, -1):
+            out.append(Case(f"three symbolic rotations (local bases) {shell} {s0:+d}", case_three, dict(shell=shell, s0=s0), timeout=T))
+    for symbol in ("s;p;d", "sp3;d", "p;f"):
+        for sigma in (1, -1):
+            out.append(Case(f"joined '{symbol}' sigma={sigma:+d}", case_joined, dict(symbol=symbol, sigma=sigma), timeout=T))
     return out
 
 
@@ -585,8 +830,59 @@ def replay(rec):
             AL = OrbitalRotator()(sh, rot_cart=R, basis1=B1, basis2=B2)
             chk(f"local bases {sh} orthogonal", AL @ AL.T, np.eye(len(AL)))
             chk(f"local bases {sh} representation", AL, rot(sh, B2) @ rot(sh, R) @ rot(sh, B1).T)
+    elif t == "three":
+        R, B1, B2 = w["s0"] * _Mq(w["q"]), _Mq(w["q1"]), _Mq(w["q2"])
+        AL = OrbitalRotator()(w["shell"], rot_cart=R, basis1=B1, basis2=B2)
+        chk("local bases orthogonal", AL @ AL.T, np.eye(len(AL)))
+        chk("local bases representation", AL, rot(w["shell"], B2) @ rot(w["shell"], R) @ rot(w["shell"], B1).T)
+    elif t == "joined":
+        from scipy.linalg import block_diag
+        R = w["sigma"] * _Mq(w["q"])
+        A = rot(w["symbol"], R)
+        chk("blockdiag of the parts", A, block_diag(*[rot(sh, R) for sh in w["symbol"].split(";")]))
+        chk("orthogonal", A @ A.T, np.eye(len(A)))
+        chk("parity", rot(w["symbol"], -R), block_diag(*[_parity(sh) for sh in w["symbol"].split(";")]) @ A)
+    elif t == "dwann":
+        return _replay_dwann(w)
     else:
         raise ValueError(t)
     bad = {k: v for k, v in errs.items() if v > 1e-9}
     return bool(bad), f"{t} {w.get('shell', '')}: " + (", ".join(f"|{k}| err {v:.2e}" for k, v in bad.items()) or f"all {len(errs)} identities hold to 1e-9") + \
         (f" at q={w['q']} sigma={w['sigma']}" if "q" in w else "")
+
+
+def _replay_dwann(w):
+    from wannierberri.symmetry.Dwann import Dwann, orbit_from_positions
+    from wannierberri.symmetry.orbitals import OrbitalRotator, num_orbitals
+    sg, ops, gens, symmorphic = space_group(w["group"])
+    z = [complex(*x) if isinstance(x, list) else complex(x) for x in w["zk"]]
+    k = np.array([np.angle(x) / (2 * np.pi) if abs(x) > 0 else v for x, v in zip(z, (0.13, 0.27, -0.41))])
+    orbital = w["orbital"]
+    bad = []
+    try:
+        orbit = orbit_from_positions(sg, [np.array(w["position"])])
+        dw = Dwann(sg, [np.array(w["position"])], orbital=orbital, orbitalrotator=OrbitalRotator(),
+                   basis_list=site_bases(sg, orbit, w["bases"], any(o in AXIS for o in orbital.split(";"))))
+        norb, npnt = num_orbitals(orbital), len(dw.orbit)
+        D = [dw.get_on_points(k, s.transform_k(k), i) for i, s in enumerate(sg.symmetries)]
+        for i, (m, t) in enumerate(ops):
+            if np.abs(D[i].conj().T @ D[i] - np.eye(npnt * norb)).max() > 1e-9:
+                bad.append(f"D(g{i}) not unitary ({np.abs(D[i].conj().T @ D[i] - np.eye(npnt * norb)).max():.2e})")
+            for ip, pnt in enumerate(dw.orbit):
+                img = m @ np.array(pnt) + t
+                jp = [j for j, q in enumerate(dw.orbit) if np.allclose((img - q + 0.5) % 1 - 0.5, 0, atol=1e-6)]
+                col = D[i][:, ip * norb:(ip + 1) * norb]
+                nz = sorted(set(r // norb for r in range(npnt * norb) if np.abs(col[r]).max() > 1e-12))
+                if len(jp) != 1 or nz != jp:
+                    bad.append(f"D(g{i}): centre {ip} goes to block {nz}, its image is site {jp}")
+        if symmorphic:
+            for g in gens:
+                k2 = sg.symmetries[g].transform_k(k)
+                for i, (m, t) in enumerate(ops):
+                    i3 = next(j for j, (x, _) in enumerate(ops) if np.array_equal(x, m @ ops[g][0]))
+                    e = np.abs(dw.get_on_points(k2, sg.symmetries[i].transform_k(k2), i) @ D[g] - D[i3]).max()
+                    if e > 1e-9:
+                        bad.append(f"D(g{i})(g{g}k) D(g{g})(k) != D(g{i3})(k) ({e:.2e})")
+    except Exception as e:
+        bad.append(f"raises {type(e).__name__}: {str(e)[:150]}")
+    return bool(bad), f"Dwann group {w['group']} site {w['position']} orbital {orbital} bases {w['bases']} k={k.tolist()}: " + ("; ".join(bad[:4]) or "unitary, centres mapped, composition holds")
